@@ -109,6 +109,10 @@ fn start_server(executor: &Arc<safina::executor::Executor>, small: usize, cache_
     let script: Script = Arc::new(Mutex::new(HashMap::new()));
     let calls: Calls = Arc::new(Mutex::new(Vec::new()));
     let (script2, calls2) = (script.clone(), calls.clone());
+    // Copies of requests that the handler keeps beyond its response (every other scenario), the way a handler that
+    // queues work does.  A temp file must be gone once its request is answered whether or not a copy is still alive;
+    // the copies are released only many scenarios later, long after the directory listing that judges them.
+    let stash: Arc<Mutex<Vec<Request>>> = Arc::new(Mutex::new(Vec::new()));
     let handler = move |req: Request| {
         let path = req.url().path().to_string();
         let (ans, n) = {
@@ -133,6 +137,14 @@ fn start_server(executor: &Arc<safina::executor::Executor>, small: usize, cache_
                 ("File", v.len() as u64, dg(&v))
             }
         };
+        let scen: u64 = path.strip_prefix("/s").and_then(|t| t.split('/').next()).and_then(|t| t.parse().ok()).unwrap_or(1);
+        if bk == "File" && scen % 2 == 0 {
+            let mut g = stash.lock().unwrap();
+            g.push(req.clone());
+            if g.len() > 64 {
+                g.drain(..32);
+            }
+        }
         let id = {
             let mut c = calls2.lock().unwrap();
             c.push(CallDetail { path: path.clone(), n, body: bk, len: blen, digest: bdig });
